@@ -8,6 +8,7 @@ import h2.connection
 import h2.errors
 import h2.events
 import h2.exceptions
+import hyperframe.exceptions
 import priority
 
 from .events import (
@@ -146,7 +147,15 @@ class H2Protocol:
         self, headers: Optional[List[Tuple[bytes, bytes]]] = None, settings: Optional[str] = None
     ) -> None:
         if settings is not None:
-            self.connection.initiate_upgrade_connection(settings)
+            try:
+                self.connection.initiate_upgrade_connection(settings)
+            except (h2.exceptions.ProtocolError, hyperframe.exceptions.HyperframeError, ValueError):
+                # The client's HTTP2-Settings header is not a valid
+                # (base64url encoded) SETTINGS payload.
+                self.connection.close_connection(h2.errors.ErrorCodes.PROTOCOL_ERROR)
+                await self._flush()
+                await self.send(Closed())
+                return
         else:
             self.connection.initiate_connection()
         await self._flush()
